@@ -13,7 +13,7 @@ One specification per property, three uses of TLC each:
 import json, os, re, concurrent.futures as cf
 from vlib import Infra, log, read_ndjson, write_ndjson
 
-PATH_SHAPES = list(range(1, 15))
+PATH_SHAPES = list(range(1, 25))     # 15-24: key leaf not the first child, lists with two and three keys
 ALL_DATA_SHAPES = list(range(1, 62))
 
 
@@ -37,9 +37,10 @@ def parse_fails(out):
 
 
 def validate_trace(ctx, module, trace, schemas, corrupt, nproc=8):
-    """Run the trace spec over the events (chunked, in parallel). Returns (failures, events).
-    One more chunk is the binding self-test: 20 events plus a corrupted copy of the first one
-    (corrupt(ev)), which the trace spec has to reject - otherwise exit 2."""
+    """Run the trace spec over the events (chunked, in parallel). Returns (failures, events, unjudged).
+    One more chunk is the binding self-test: 20 events plus a corrupted copy of each of them
+    (corrupt(ev)); the trace spec has to reject at least one (an event the spec leaves unjudged
+    passes whatever it says) - otherwise exit 2."""
     lines = [l for l in open(trace).read().splitlines() if l]
     if not lines:
         raise Infra("the harness recorded no events")
@@ -49,11 +50,14 @@ def validate_trace(ctx, module, trace, schemas, corrupt, nproc=8):
         p = ctx.path("chunks", f"{module}_{len(chunks)}.ndjson")
         open(p, "w").write("\n".join(lines[i:i + per]) + "\n")
         chunks.append((p, len(lines[i:i + per]), False))
-    ev = json.loads(lines[0])
-    corrupt(ev)
+    bad = []
+    for l in lines[:20]:
+        ev = json.loads(l)
+        corrupt(ev)
+        bad.append(json.dumps(ev))
     p = ctx.path("selftest", module + ".ndjson")
-    open(p, "w").write("\n".join(lines[:20] + [json.dumps(ev)]) + "\n")
-    chunks.append((p, len(lines[:20]) + 1, True))
+    open(p, "w").write("\n".join(lines[:20] + bad) + "\n")
+    chunks.append((p, len(lines[:20]) + len(bad), True))
 
     def one(ch):
         p, n, selftest = ch
@@ -67,15 +71,17 @@ def validate_trace(ctx, module, trace, schemas, corrupt, nproc=8):
         if selftest:
             if int(m.group(2)) < 1 or not fs:
                 raise Infra(f"self-test: {module} accepted a corrupted event")
-            return [], 0
-        return fs, n
+            return [], 0, 0
+        u = re.search(r'<<"TRACE-UNJUDGED", (\d+)>>', r["out"])
+        return fs, n, int(u.group(1)) if u else 0
 
-    fails, events = [], 0
+    fails, events, unj = [], 0, 0
     with cf.ThreadPoolExecutor(max_workers=nproc + 1) as ex:
-        for fs, n in ex.map(one, chunks):
+        for fs, n, u in ex.map(one, chunks):
             fails += fs
             events += n
-    return fails, events
+            unj += u
+    return fails, events, unj
 
 
 def sample_pairs(ctx, pairs, per_shape, tag):
@@ -120,12 +126,25 @@ def path_sig(site, want_ok, want_at, got_ok, got_at, ph, inc):
                 incomplete_allowed=bool(inc))
 
 
+PHASE_TEXT = {"key": "the token after a list name: a value of the first key of the key statement", "in": "a child name (container / top level)",
+              "entry": "a child name (list entry)", "val": "the value after a leaf / leaf-list name", "done": "nothing: a value was the last element",
+              "end:key": "end of input on a list name", "end:keys": "end of input on the first key value of a list with several keys",
+              "end:in": "end of input on a container", "end:entry": "end of input on a list entry", "end:val": "end of input on a leaf / leaf-list name",
+              "end:done": "end of input on a value"}
+
+
+def phase_text(ph):
+    return f" [the walk expects {PHASE_TEXT.get(ph, ph)}]"
+
+
 def run_c17(ctx):
     ctx.build(["dv"])
     q = ctx.quick()
     maxlen, ext_mc, ext_gen = (5, 1, 2) if q else (6, 1, 2)
     maxlen_mc = 4 if q else 6       # the model check (spec-internal) is smaller at the quick tier
     nrand, npaths = (40, 100) if q else (300, 800)
+    # the six three-key shapes differ in the types of the keys only: the spec-internal model check takes two of them at the quick tier
+    mc_shapes = [s for s in PATH_SHAPES if not (q and s in (19, 20, 22, 23))]
     # 1. exhaustive model: walk machine = recursive definition = generated language
     # 2. behaviour generator (run side by side, two TLC processes) + replay
     def corrupt(ev):
@@ -165,16 +184,17 @@ def run_c17(ctx):
         rstat = json.loads(r.stdout.strip().splitlines()[-1])
         if rstat["uncompilable"] * 5 > nrand:
             raise Infra(f"{rstat['uncompilable']} of {nrand} sampled schemas do not compile")
-        fails, events = validate_trace(ctx, "SchemaPathTrace", trace, schemas, corrupt)
+        fails, events, unj = validate_trace(ctx, "SchemaPathTrace", trace, schemas, corrupt)
         if events != rstat["events"]:
             raise Infra("event count mismatch")
+        rstat["unjudged"] = unj
         return fails, events, rstat, trace
 
     # 1. exhaustive model, 2. behaviour generator, race build: side by side; then replay, the concurrent
     # stage and the trace stage side by side (the verdicts are collected here, in one thread)
     with cf.ThreadPoolExecutor(max_workers=6) as ex:
         fmc = ex.submit(ctx.tlc, "SchemaPathMC", "SchemaPathMC.cfg", workers=8, timeout=2400, heap="10g",
-                        consts={"Shapes": set_lit(PATH_SHAPES), "MaxLen": maxlen_mc, "Ext": ext_mc, "LangLen": 3})
+                        consts={"Shapes": set_lit(mc_shapes), "MaxLen": maxlen_mc, "Ext": ext_mc, "LangLen": 3})
         fg = ex.submit(ctx.tlc, "SchemaPathGen", "SchemaPathGen.cfg", workers=6, timeout=2400, heap="10g",
                        consts={"Shapes": set_lit(PATH_SHAPES + [100]), "MaxLen": maxlen, "Ext": ext_gen, "FullTails": "FALSE" if q else "TRUE", "NRand": nrand, "RandDepth": 3},
                        extra=["-seed", str(ctx.seed)])
@@ -198,19 +218,22 @@ def run_c17(ctx):
         sig = path_sig(m["site"], m["want"]["ok"], m["want"]["at"], m["got"]["ok"], m["gotat"], m["want"]["ph"], m["inc"])
         ctx.disagree(sig, f"path {m['p']} (shape {m['shape']}, incomplete allowed={m['inc']}): spec "
                      + ("accepts" if m["want"]["ok"] else f"rejects at element {m['want']['at']}") + ", code "
-                     + ("accepts" if m["got"]["ok"] else f"identifies element {m['gotat']} ({m['got']['form']} error, path {m['got']['epath']}, tag {m['got']['tok']!r}; -1 = none of the input)"),
+                     + ("accepts" if m["got"]["ok"] else f"identifies element {m['gotat']} ({m['got']['form']} error, path {m['got']['epath']}, tag {m['got']['tok']!r}; -1 = none of the input)") + phase_text(m["want"]["ph"]),
                      dict(kind=m["site"], shape=m["shape"], path=m["p"], incomplete_allowed=m["inc"], want=m["want"], got=m["got"],
                           how=f"bin/check C17 --tier {ctx.tier}; dv probe <sps_{m['shape']}.ndjson> {' '.join(m['p'])}"))
     for f in fails:
         sig = path_sig("trace", f["wantok"], f["wantat"], f["gotok"], f["gotat"], f["ph"], f["inc"])
         ctx.disagree(sig, f"path {f['p']} (schema {f['sid']}, incomplete allowed={f['inc']}): spec "
                      + ("accepts" if f["wantok"] else f"rejects at element {f['wantat']}") + ", code "
-                     + ("accepts" if f["gotok"] else f"identifies element {f['gotat']} ({f['form']} error, path {f['epath']}, tag {f['gottok']!r}; 0 = none of the input)"),
+                     + ("accepts" if f["gotok"] else f"identifies element {f['gotat']} ({f['form']} error, path {f['epath']}, tag {f['gottok']!r}; 0 = none of the input)") + phase_text(f["ph"]),
                      dict(kind="trace", failure=f, how=f"bin/check C17 --tier {ctx.tier} --seed {ctx.seed}"))
     distinct = set()
     samples = []
     nvec = 0
+    past_first_key = 0        # generated paths without a prescribed verdict in either mode (left out of the vector files)
     for s in PATH_SHAPES:
+        u = read_ndjson(os.path.join(d, f"spu_{s}.ndjson"))[0]
+        past_first_key += u["paths"] - u["judged"]
         for v in read_ndjson(os.path.join(d, f"spv_{s}.ndjson")):
             nvec += 1
             if len(v["p"]) >= 2:
@@ -222,11 +245,16 @@ def run_c17(ctx):
     cov = dict(evaluations=stat["evaluations"] + events, distinct_nontrivial=len(distinct),
                rule="replay: every viable path (accepted with incomplete paths allowed) of <= MaxLen tokens continued by every sequence of <= Ext tokens "
                     "over {all node names incl. choice/case, valid value, invalid value, unknown}, both modes; distinct = (shape, path) with >= 2 tokens; "
-                    "trace: seeded random walks with one-token corruptions and over-long tails on TLC-sampled schemas and the shapes",
+                    "trace: seeded random walks with one-token corruptions and over-long tails on TLC-sampled schemas and the shapes; "
+                    "lists with one, two and three keys (three value spaces, key leaves declared in every order and between non-key leaves): the token after "
+                    "the list name is judged against the first key of the key statement, nothing after it",
                samples=samples, shapes=len(PATH_SHAPES), vectors=nvec, replay_evaluations=stat["evaluations"], concurrent_evaluations=cstat["evaluations"], trace_events=events,
-               sampled_schemas=nrand, unjudged=dict(empty_path=1, sampled_schemas_refused_by_compiler=rstat["uncompilable"]), bounds=dict(MaxLen=maxlen, Ext=ext_gen, full_tail_alphabet_after_first_tail_token=not q, MaxLenMC=maxlen_mc, ExtMC=ext_mc),
+               sampled_schemas=nrand, unjudged=dict(empty_path=1, sampled_schemas_refused_by_compiler=rstat["uncompilable"],
+                             generated_paths_past_the_first_key_value_of_a_multi_key_list=past_first_key,
+                             replay_evaluations_without_prescribed_verdict=stat.get("unjudged", 0), trace_events_without_prescribed_verdict=rstat["unjudged"]),
+               bounds=dict(MaxLen=maxlen, Ext=ext_gen, full_tail_alphabet_after_first_tail_token=not q, MaxLenMC=maxlen_mc, ExtMC=ext_mc),
                exhaustive=True,
-               explanation="TLC explored the walk machine on every token sequence that keeps the walk alive (plus Ext tokens past a rejection) for 12 schema shapes "
+               explanation="TLC explored the walk machine on every token sequence that keeps the walk alive (plus Ext tokens past a rejection) for %d schema shapes " % len(PATH_SHAPES) +
                            "and checked it against the recursive definition, the prefix characterisation of 'first offending' and the generated language; "
                            "every generated path was replayed on ModelSet.Validate in both modes (verdict, offending position and token decoded from the structured error); "
                            "recorded events of random walks on sampled schemas were judged by the same operators in SchemaPathTrace")
@@ -234,7 +262,9 @@ def run_c17(ctx):
         "value spaces: string accepts every token, int8 accepts the tokens 5 7 -3 and rejects identifiers (type validation itself is C16)",
         "the offending element is decoded from the structured error: unknown-element -> Path + info tag, invalid value -> last element of Path, "
         "missing value / child -> one past Path (message of schema.NewMissingValueError distinguishes it)",
-        "the empty path is not judged; schemas have single-key lists, no must/when/leafref, one module",
+        "the empty path is not judged; no must/when/leafref, one module",
+        "a list with several keys: the token after its name is a value of the first key of the key statement (RFC 6020 7.8.2); what follows that value, "
+        "and whether ending on it is complete, is not prescribed by the statement and not judged (counted under unjudged)",
     ])
 
 
@@ -329,7 +359,7 @@ def run_c18(ctx):
         rstat = json.loads(r.stdout.strip().splitlines()[-1])
         if rstat["uncompilable"] * 5 > nrand:
             raise Infra(f"{rstat['uncompilable']} of {nrand} sampled schemas do not compile")
-        fails, events = validate_trace(ctx, "DataValidateTrace", trace, schemas, corrupt)
+        fails, events, _ = validate_trace(ctx, "DataValidateTrace", trace, schemas, corrupt)
         if events != rstat["events"]:
             raise Infra("event count mismatch")
         return fails, events, rstat, trace
@@ -406,9 +436,9 @@ TECH = ("TLA+ spec SchemaNodes/SchemaPath/DataValidate: TLC exhaustive model, TL
 MANIFEST = {
  "C17": dict(text="SchemaPath.tla defines acceptance of a token path recursively over the schema (children by name through transparent choices/cases, key after a list "
              "name, typed last value after a leaf name, endings by mode) and the first offending element; TLC proves a per-token walk machine, the generated "
-             "language and the prefix characterisation of 'first offending' agree on 12 shapes; every bounded path (viable prefixes, corruptions, over-long tails) "
+             "language and the prefix characterisation of 'first offending' agree on 24 shapes; every bounded path (viable prefixes, corruptions, over-long tails) "
              "is replayed on ModelSet.Validate in both modes comparing verdict, offending position and token; random walks on TLC-sampled schemas are judged by SchemaPathTrace.",
-             note="types limited to string/int8/empty (C16 owns value spaces); single-key lists; the empty path is unjudged", design="4 C17", technique=TECH),
+             note="types limited to string/int8/empty, boolean for key leaves (C16 owns value spaces); lists with several keys are judged up to their first key value only; the empty path is unjudged", design="4 C17", technique=TECH),
  "C18": dict(text="DataValidate.tla defines Violations (mandatory leaf/choice, min-elements nodes missing under an existing parent through non-presence containers and "
              "active cases; min/max-elements; unique over descendant leaves) and Decorate (defaults under existing parents and non-presence containers, active else "
              "default case) from RFC 6020; TLC checks idempotence, explicit data kept, only defaults added; all data trees of 15 shapes within bounds are replayed on "
